@@ -354,4 +354,220 @@ theorem lastText_raw (cfg : Cfg) (c : Ctx) (m : Str) (hp : isPreserve m = true) 
     have := lastText_raw cfg c m hp ind hne (k2 :: ks) r' hr' h'
     exact List.suffix_append_of_suffix this |>.trans (List.suffix_refl _) |> fun x => by simpa using x
 
+/-- first pass over script/style outside pre/code: the content becomes one data block that ends with the `_indent` -/
+theorem gK_raw1 (cfg : Cfg) (c : Ctx) (m : Str) (hr : isRawText m = true) (hne : indentAt cfg c ≠ [])
+    (kk : List FNode) (raw : Str) (hraw : rawText kk = some raw) :
+    ∃ raw1, gK cfg c m false kk = [.tok (.data raw1)] ∧ indentAt cfg c <:+ raw1 := by
+  have hp := rawName_preserve m hr
+  have hpre := raw_not_pre m hr
+  refine ⟨raw ++ endInd m (indentAt cfg c) (decorateL cfg (c.push m) m (toNodeL kk)), ?_, ?_⟩
+  · unfold gK
+    simp only [Bool.false_eq_true, if_false]
+    rw [expandL_raw cfg (c.push m) m hp kk raw hraw, mergeL_rawText _ _ (rawText_append_dataTok kk raw _ hraw)]
+    apply dataTok_ne
+    intro h0
+    have h1 := List.append_eq_nil_iff.mp h0
+    have hlt : lastTextEndsWith (indentAt cfg c) (decorateL cfg (c.push m) m (toNodeL kk)) = true := by
+      cases hl : lastTextEndsWith (indentAt cfg c) (decorateL cfg (c.push m) m (toNodeL kk)) with
+      | true => rfl
+      | false =>
+        have := h1.2
+        simp only [endInd, hpre, hp, hl, Bool.and_false, Bool.false_eq_true, if_false] at this
+        exact absurd this hne
+    have := lastText_raw cfg (c.push m) m hp _ hne kk raw hraw hlt
+    rw [h1.1] at this
+    exact hne (List.suffix_nil.mp this)
+  · cases hl : lastTextEndsWith (indentAt cfg c) (decorateL cfg (c.push m) m (toNodeL kk)) with
+    | true =>
+      have he : endInd m (indentAt cfg c) (decorateL cfg (c.push m) m (toNodeL kk)) = [] := by
+        have hne' : (indentAt cfg c).isEmpty = false := by
+          cases h : indentAt cfg c with
+          | nil => exact absurd h hne
+          | cons x xs => rfl
+        simp [endInd, hpre, hp, hl, hne']
+      rw [he, List.append_nil]
+      exact lastText_raw cfg (c.push m) m hp _ hne kk raw hraw hl
+    | false =>
+      have he : endInd m (indentAt cfg c) (decorateL cfg (c.push m) m (toNodeL kk)) = indentAt cfg c := by
+        simp [endInd, hpre, hl]
+      rw [he]
+      exact List.suffix_append _ _
+
+/-- … and from then on `getEndTag` finds the indent already there: nothing changes -/
+theorem gK_raw2 (cfg : Cfg) (c : Ctx) (m : Str) (hr : isRawText m = true) (hne : indentAt cfg c ≠ [])
+    (raw1 : Str) (hsuf : indentAt cfg c <:+ raw1) :
+    gK cfg c m false [.tok (.data raw1)] = [.tok (.data raw1)] := by
+  have hp := rawName_preserve m hr
+  have hpre := raw_not_pre m hr
+  have hr1 : raw1 ≠ [] := by
+    intro h0; rw [h0] at hsuf
+    exact hne (List.suffix_nil.mp hsuf)
+  have hraw : rawText [FNode.tok (.data raw1)] = some raw1 := by
+    have : raw1.isEmpty = false := by cases raw1 <;> simp_all
+    simp [rawText, this]
+  have hne' : (indentAt cfg c).isEmpty = false := by
+    cases h : indentAt cfg c with
+    | nil => exact absurd h hne
+    | cons x xs => rfl
+  unfold gK
+  simp only [Bool.false_eq_true, if_false]
+  rw [expandL_raw cfg (c.push m) m hp _ raw1 hraw]
+  have he : endInd m (indentAt cfg c) (decorateL cfg (c.push m) m (toNodeL [FNode.tok (.data raw1)])) = [] := by
+    rw [endInd, lastText_data _ raw1 (c.push m) cfg m hp, (endsWith_iff _ _).mpr hsuf]
+    simp [hpre, hp, hne']
+  rw [he]
+  simp [dataTok, mergeL, pushTok_data_nil]
+
+/-! ### every other element: the position-wise induction -/
+
+/-- one pass + re-tokenisation on a block list in context `(c, p)` that is followed by the data text `e` (the
+    parent's `_indent` before its end tag) -/
+def MX (cfg : Cfg) (c : Ctx) (p e : Str) (v : List FNode) : List FNode := mergeL (expandL cfg c p v ++ dataTok e)
+
+theorem MX_nil (cfg : Cfg) (c : Ctx) (p e : Str) : MX cfg c p e [] = dataTok e := by
+  simp [MX, expandL, mergeL_dataTok]
+
+theorem MX_data (cfg : Cfg) (c : Ctx) (p e : Str) (hc : c.inPre = 0) (hp : isPreserve p = false) (s : Str)
+    (v : List FNode) : MX cfg c p e (.tok (.data s) :: v) = pushData (squeeze s) (MX cfg c p e v) := by
+  unfold MX
+  rw [mx_data, dataRule_sq c p s hc hp]
+
+theorem MX_tok (cfg : Cfg) (c : Ctx) (p e : Str) (t : Token) (h : isData t = false) (v : List FNode) :
+    MX cfg c p e (.tok t :: v) = .tok t :: MX cfg c p e v := mx_tok cfg c p t h v _
+
+theorem MX_elem (cfg : Cfg) (c : Ctx) (p e m : Str) (st : AStore) (sc : Bool) (kk v : List FNode) :
+    MX cfg c p e (.elem m st sc kk :: v)
+      = pushData (indentAt cfg c) (.elem m st sc (gK cfg c m sc kk) :: MX cfg c p e v) := mx_elem cfg c p m st sc kk v _
+
+theorem MX_dataTok (cfg : Cfg) (c : Ctx) (p e : Str) (hc : c.inPre = 0) (hp : isPreserve p = false) (a : Str)
+    (l : List FNode) : MX cfg c p e (dataTok a ++ l) = pushData (squeeze a) (MX cfg c p e l) := by
+  unfold MX
+  rw [mx_dataTok cfg c p a (dataRule_nil c p), dataRule_sq c p a hc hp]
+
+/-- what "stable from the second pass on" means for one element in context `c` -/
+def StabAt (cfg : Cfg) (c : Ctx) : FNode → Prop
+  | .tok _ => True
+  | .elem m _ sc kk => gK cfg c m sc (gK cfg c m sc (gK cfg c m sc kk)) = gK cfg c m sc (gK cfg c m sc kk)
+
+theorem strict_gK (cfg : Cfg) (hi : IndentWS cfg) (c : Ctx) (m : Str) (st : AStore) (sc : Bool) (kk : List FNode)
+    (hs : (FNode.elem m st sc kk).Strict) : (FNode.elem m st sc (gK cfg c m sc kk)).Strict := by
+  have h1 := strict_expand cfg hi c [] _ hs
+  simp only [expand] at h1
+  rw [strictL_append] at h1
+  have h2 := strict_merge _ h1.2.1
+  simpa [merge, gK] using h2
+
+theorem strict_kids_buildable (m : Str) (st : AStore) (sc : Bool) (kk : List FNode)
+    (hs : (FNode.elem m st sc kk).Strict) : BuildableL kk := by
+  have := strict_buildable _ hs
+  simp only [FNode.Buildable] at this
+  exact this.2.2.2.2
+
+mutual
+theorem stabN (cfg : Cfg) (hm : cfg.mini = false) (hi : IndentWS cfg) :
+    ∀ u : FNode, u.Strict → ∀ c : Ctx, StabAt cfg c u
+  | .tok _, _, _ => trivial
+  | .elem m st sc kk, hs, c => by
+    simp only [StabAt]
+    cases sc with
+    | true => simp [gK]
+    | false =>
+      by_cases hpre : c.inPre ≠ 0 ∨ isPre m = true
+      · -- nothing is rewritten
+        have hb := strict_kids_buildable m st false kk hs
+        have h1 := gK_pre cfg c m kk hpre hb
+        have hs2 := strict_gK cfg hi c m st false kk hs
+        rw [h1] at hs2
+        have h2 : gK cfg c m false (gK cfg c m false kk) = gK cfg c m false kk := by
+          rw [h1, gK_pre cfg c m _ hpre (strict_kids_buildable m st false _ hs2), mergeL_idem]
+        rw [h2]
+        exact h2
+      · have hc : c.inPre = 0 := by
+          cases h : c.inPre with
+          | zero => rfl
+          | succ k => exact absurd (Or.inl (by simp [h])) hpre
+        have hnpre : isPre m = false := by
+          cases h : isPre m with
+          | false => rfl
+          | true => exact absurd (Or.inr h) hpre
+        have hI := indentAt_isIndent cfg hm hi c hc
+        by_cases hr : isRawText m = true
+        · -- script/style
+          have hk := hs
+          simp only [FNode.Strict, hr, if_true] at hk
+          obtain ⟨raw, hraw, _⟩ := hk.2.2.2.2.2
+          obtain ⟨raw1, e1, hsuf⟩ := gK_raw1 cfg c m hr (isIndent_ne _ hI) kk raw hraw
+          have e2 := gK_raw2 cfg c m hr (isIndent_ne _ hI) raw1 hsuf
+          rw [e1, e2, e2]
+        · -- the general case
+          have hp : isPreserve m = false := by
+            cases h : isPreserve m with
+            | false => rfl
+            | true =>
+              rcases preserve_cases m h with h' | h'
+              · rw [h'] at hnpre; cases hnpre
+              · exact absurd h' hr
+          have hk := hs
+          simp only [FNode.Strict, hr] at hk
+          have hkk : StrictL kk := hk.2.2.2.2.2
+          have hg : ∀ v, gK cfg c m false v = MX cfg (c.push m) m (indentAt cfg c) v := by
+            intro v
+            simp only [gK, MX, Bool.false_eq_true, if_false, endInd_normal m _ _ hp]
+          have := stabL cfg hm hi kk hkk (c.push m) m (indentAt cfg c) (push_inPre_zero c m hc hnpre) hp hI []
+          simp only [pushData_nil] at this
+          rw [hg, hg, hg]
+          exact this
+theorem stabL (cfg : Cfg) (hm : cfg.mini = false) (hi : IndentWS cfg) :
+    ∀ ks : List FNode, StrictL ks → ∀ (c : Ctx) (p e : Str), c.inPre = 0 → isPreserve p = false → IsIndent e →
+      ∀ a : Str, MX cfg c p e (MX cfg c p e (pushData a (MX cfg c p e ks))) = MX cfg c p e (pushData a (MX cfg c p e ks))
+  | [], _, c, p, e, hc, hp, he, a => by
+    have hd : ∀ x, MX cfg c p e (dataTok x) = dataTok (squeeze x ++ e) := by
+      intro x
+      have := MX_dataTok cfg c p e hc hp x []
+      rw [List.append_nil] at this
+      rw [this, MX_nil, pushData_dataTok]
+    rw [MX_nil, pushData_dataTok, hd, hd, squeeze_indent_stable a e he]
+  | .tok t :: ks, hs, c, p, e, hc, hp, he, a => by
+    simp only [StrictL] at hs
+    by_cases hd : isData t = true
+    · cases t with
+      | data s =>
+        rw [MX_data cfg c p e hc hp, pushData_pushData]
+        exact stabL cfg hm hi ks hs.2 c p e hc hp he _
+      | _ => simp [isData] at hd
+    · have hd' : isData t = false := by simpa using hd
+      have ih := stabL cfg hm hi ks hs.2 c p e hc hp he []
+      simp only [pushData_nil] at ih
+      rw [MX_tok cfg c p e t hd', pushData_tok a t hd', MX_dataTok cfg c p e hc hp, MX_tok cfg c p e t hd',
+        pushData_tok _ t hd', MX_dataTok cfg c p e hc hp, MX_tok cfg c p e t hd', ih, squeeze_idem,
+        pushData_tok _ t hd']
+  | .elem m st sc kk :: ks, hs, c, p, e, hc, hp, he, a => by
+    simp only [StrictL] at hs
+    have ih := stabL cfg hm hi ks hs.2 c p e hc hp he []
+    simp only [pushData_nil] at ih
+    have ihN := stabN cfg hm hi (.elem m st sc kk) hs.1 c
+    simp only [StabAt] at ihN
+    have hI := indentAt_isIndent cfg hm hi c hc
+    have hne := isIndent_ne _ hI
+    have step : ∀ (x : Str) (K R : List FNode),
+        MX cfg c p e (.tok (.data (x ++ indentAt cfg c)) :: .elem m st sc K :: R)
+          = .tok (.data (squeeze (x ++ indentAt cfg c) ++ indentAt cfg c))
+              :: .elem m st sc (gK cfg c m sc K) :: MX cfg c p e R := by
+      intro x K R
+      rw [MX_data cfg c p e hc hp, MX_elem, pushData_pushData, pushData_elem, dataTok_ne _ (by simp [hne])]
+      rfl
+    have h0 : pushData a (MX cfg c p e (.elem m st sc kk :: ks))
+        = .tok (.data (a ++ indentAt cfg c)) :: .elem m st sc (gK cfg c m sc kk) :: MX cfg c p e ks := by
+      rw [MX_elem, pushData_pushData, pushData_elem, dataTok_ne _ (by simp [hne])]
+      rfl
+    rw [h0, step, step, ih, ihN, squeeze_indent_stable a _ hI]
+end
+
+/-- **pass 3 = pass 2 on the blocks of the root element** (pretty classes, every strict tree) -/
+theorem outRoot_stable (cfg : Cfg) (hm : cfg.mini = false) (hi : IndentWS cfg) (n : Str) (st : AStore) (sc : Bool)
+    (kids : List FNode) (hs : (FNode.elem n st sc kids).Strict) :
+    gK cfg ⟨0, 0⟩ n sc (gK cfg ⟨0, 0⟩ n sc (gK cfg ⟨0, 0⟩ n sc kids)) = gK cfg ⟨0, 0⟩ n sc (gK cfg ⟨0, 0⟩ n sc kids) := by
+  have := stabN cfg hm hi _ hs ⟨0, 0⟩
+  simpa only [StabAt] using this
+
 end AHP.Fmt
